@@ -179,6 +179,9 @@ def rtpfbComponent : Component where
       match parseCcfb fs, getInt fs "now" with
       | some fb, some _ => ({ st with queue := st.queue ++ [.ccfb fb] }, [])
       | _, _ => (st, ["bad-op"])
+    | ["q", "other"] =>
+      -- an RTCP packet of any other type (receiver report, PLI, …): no case of the type switch
+      ({ st with queue := st.queue ++ [.other] }, [])
     | "fb" :: rest =>
       match getInt (fields rest) "now" with
       | none => (st, ["bad-op"])
